@@ -128,6 +128,19 @@ def run(ctx: Ctx, tier: str) -> Result:
         res.ok("C12.LOOP", {"nothing escapes the timer thread": True})
     for tok, ch_ in esc.items():
         res.fail(Finding("C12.LOOP", tg.qname, "<escape %s>" % tok, tg.loc(), "%s can end the poll timer thread" % tok, path=g.fmt_chain(ch_)))
+    # the timer runs with the interval it was given (a sub-second interval cut to 0 makes the timer thread die in its first
+    # wait computation, outside the guard of the loop)
+    rt = p.cls(TIMER)
+    rinit = rt.lookup("__init__")
+    ist = [(sf, v) for sf, v, _ in t.field_stores(rt, "interval")]
+    if ist and all(sf is rinit and (isinstance(v, ast.Name) and v.id in rinit.params or (isinstance(v, ast.Call) and norm(v.func) == "float" and len(v.args) == 1
+                                                                                          and isinstance(v.args[0], ast.Name) and v.args[0].id in rinit.params)) for sf, v in ist):
+        res.ok("C12.LOOP", {"timer interval stored as given": norm(ist[0][1])})
+    else:
+        bad_ = next(((sf, v) for sf, v in ist if not (sf is rinit and isinstance(v, ast.Name))), None)
+        res.fail(Finding("C12.LOOP", (bad_[0] if bad_ else rinit).qname, bad_[1] if bad_ else "<self.interval = interval>", (bad_[0] if bad_ else rinit).loc(bad_[1]) if bad_ else rinit.loc(),
+                         "the timer does not keep the interval it was given (`%s`): a fractional interval is cut (0.25 -> 0: the wait computation divides by it and the poll "
+                         "thread ends before its first poll), or the interval changes while the timer runs" % (norm(bad_[1])[:50] if bad_ else "no store")))
     # ... and a poll that failed does not keep a later one from running: a lock taken on the poll path is given back on
     # every way out
     from .common import lock_leaks
@@ -245,5 +258,7 @@ def run(ctx: Ctx, tier: str) -> Result:
         res.fail(Finding("C12.APPLY", hn.qname, hw[0] if hw else "<self._tp_config = new_config>", hn.loc(), "the trigger handler does not install exactly the configuration the listener passes on"))
     from .common import borrow
     borrow(ctx, res, tier, "c03", ("C03.MERGE",), "C12.MERGE", "tracepoints of a response are grouped by a key that tells different locations apart")
+    borrow(ctx, res, tier, "c13", ("C13.MATCH",), "C12.REMOVE", "an unregistered tracepoint leaves the registered set, and only it: removal by identity, harmless when the handle is unknown (a failing "
+           "removal leaves the tracepoint installed and published again)")
     borrow(ctx, res, tier, "c13", ("C13.ADD",), "C12.NOTIFY", "every change of the configuration is submitted to the listeners")
     return res
